@@ -360,7 +360,7 @@ func derivesFromElem(v ssa.Value, l *IterLoop) bool {
 
 // c04Parser: arrays are appended one element per token, scalar tokens are returned as they are.
 func c04Parser(c *Ctx, r *Report) {
-	pv := c.Fn("parseValue")
+	pv := c.parserFn()
 	if pv == nil {
 		r.Undecided("C04-R5", "parseValue", "-", "parser not found")
 		return
